@@ -15,7 +15,7 @@ for D in /tmp/seed/$ID-out/m*; do
   mkdir -p $S && cp $D/patch.diff $D/demo.py $S/ && cp $D/notes.md $S/ 2>/dev/null
   git -C /repo status --short | grep -q . && { echo "/repo not clean"; exit 2; }
   git -C /repo apply $S/patch.diff || { echo "apply to /repo failed"; continue; }
-  OUT=$(cd /verif && ./bin/check $ID quick 2>&1 | grep -v condarc | tail -3)
+  OUT=$(cd /verif && ./bin/check $ID quick 2>/dev/null | grep -E "^(OK|VIOLATION)" | tail -3)
   git -C /repo checkout -q -- . ; git -C /repo clean -fdq
   V=$(echo "$OUT" | grep -c "^VIOLATION")
   echo "  check: $(echo "$OUT" | tail -1)"
